@@ -149,6 +149,52 @@ def dwr_answered(out: bool, waiting: bool, ih: int, ie: int, state_id: int) -> b
     return hx.check(inputs, obs, exp, "a DWR is answered 2001 with the node's Origin-State-Id in either ready sub-state")
 
 
+def reason_after_history(prev: int, back: int) -> bool:
+    """
+    pre: 0 <= prev <= 4 and 0 <= back <= 1
+    post: _
+    """
+    hx.begin()
+    # the peer has a history: an earlier connection ended (peer gone / socket error / after a DPR / node-initiated close) or none
+    # did; it is connected again (inbound with a CER, or dialled), goes idle, gets its DWR, stays silent: the connection is
+    # closed and the reason recorded for the peer is the watchdog timeout - not whatever the earlier loss left behind
+    pv = ["none", "gone", "error", "dpr", "node_close"][hx.concretize_range(prev, 0, 5)]
+    outbound = bool(hx.concretize_range(back, 0, 2))
+    inputs = (prev, back)
+    from harness import hist as H
+    try:
+        with hx.untraced():
+            h = H.Hist(init="fresh", persistent=False)
+            n, p = h.n, h.p
+            if pv != "none":
+                h.ev_accept()
+                h.ev_cer(B.PEER_HOSTS[0], [4])
+                if pv == "gone":
+                    h.ev_gone(h.newest())
+                elif pv == "error":
+                    h.ev_err(h.newest())
+                elif pv == "dpr":
+                    h.ev_dpr()
+                    h.ev_gone(h.newest())
+                else:
+                    h.ev_close()
+            if outbound:
+                h.ev_dial("ok")
+                h.ev_cea(2001)
+            else:
+                h.ev_accept()
+                h.ev_cer(B.PEER_HOSTS[0], [4])
+            c = h.newest()
+            ready = c is not None and c.state == B.PEER_READY
+            WORLD.advance(n, n.idle_timeout + 1)           # idle: the DWR goes out
+            waiting = c is not None and c.state == B.PEER_READY_WAITING_DWA
+            WORLD.advance(n, n.dwa_timeout + 1)            # silence: closed by the watchdog
+            obs = (ready, waiting, c is not None and c.ident in n.connections, p.disconnect_reason)
+    except Exception as e:
+        return hx.fail(inputs, "raised %s: %s" % (type(e).__name__, str(e)[:80]))
+    return hx.check(inputs, obs, (True, True, False, B.DISCONNECT_REASON_DWA_TIMEOUT), "silence after the DWR closes the connection with the watchdog-timeout reason, whatever the peer's earlier history")
+
+
 def stopping_silent(d: int) -> bool:
     """
     pre: 0 <= d <= 700
@@ -218,6 +264,8 @@ def specs(tier, seed, carve):
         dict(id="dwa_restores", fn="dwa_restores", params={}, timeout=120, bound="all d, d2 in [0,200], idle 1..60"),
         dict(id="dwr_answered", fn="dwr_answered", params={}, timeout=120, bound="ids from a 5-element pool (equal/distinct/boundary), all 32-bit Origin-State-Id values; both ready sub-states; inbound and outbound"),
         dict(id="stopping_silent", fn="stopping_silent", params={}, timeout=60, bound="all d in [0,700]"),
+        dict(id="reason_after_history", fn="reason_after_history", params={}, timeout=120,
+             bound="the peer's earlier connection ended by {nothing, peer gone, socket error, DPR, node close}; connected again inbound / dialled; idle, DWR, silence"),
     ]
     for steps in ((2, 3) if q else (2, 3, 4)):
         out.append(dict(id="timeline/%d" % steps, fn="timeline", params={"steps": steps}, timeout=300 if q else 1500,
